@@ -413,6 +413,85 @@ static void case_c14(const Spec& spec, int alg, int target) {
   sx::reached(rejected ? "net-c14-rejected" : "net-c14-kept");
 }
 
+
+// C09: reported statistics are consistent with the adjustment they describe
+#include <gnu_gama/statan.h>
+static void case_c09(const Spec& spec0, int alg, const std::string& sigma_act, const Q& conf, const Q& sigma_apr2) {
+  Spec spec = spec0; spec.sigma_act = sigma_act; spec.conf_pr = conf;
+  Built b; if (!build(b, spec, ALGS[alg], Q(1, 10))) return;
+  make_oracle(b); if (!b.orc.resolves) return;
+  LocalNetwork* IS = b.net.IS.get(); Oracle& o = b.orc;
+  std::string tag = std::string(ALGS[alg]) + " " + sigma_act;
+  Res r = run_flow(b, true);
+  sx::check_true(r.adjusted, tag + " adjusted", r.why); if (!r.adjusted) return;
+  int n = IS->unknowns_count(), m = IS->observations_count(), dof = IS->degrees_of_freedom();
+  sx::check_true(dof == m - n + IS->null_space(), tag + " dof = observations - unknowns + defect", "");
+  sx::check_true(dof == o.dof, tag + " dof equals the oracle's", "");
+  Real m0a = IS->m_0_aposteriori_value();
+  if (dof > 0) sx::check_eq(m0a * m0a * sx::rat(dof), IS->trans_VWV(), tag + " m0(aposteriori)^2 * dof = v'Pv"); else sx::check_zero(m0a, tag + " m0(aposteriori) = 0 when dof = 0");
+  sx::check_ge0(m0a, tag + " m0(aposteriori) >= 0");
+  sx::check_eq(IS->trans_VWV(), o.vpv, tag + " v'Pv equals the oracle's");
+  Real m0 = IS->m_0();
+  if (sigma_act == "apriori") sx::check_eq(m0, sx::constant(spec.sigma_apr), tag + " m0 = sigma-apr"); else sx::check_eq(m0, m0a, tag + " m0 = aposteriori value");
+  // standard deviations of unknowns
+  std::vector<int> colmap(n);
+  for (int i = 1; i <= n; i++) { int c = o.col(IS->unknown_pointid(i).str(), IS->unknown_type(i)); colmap[i - 1] = c; if (c < 0) { sx::fail(tag + " unexpected unknown", ""); return; }
+    Real sd = IS->unknown_stdev(i); sx::check_eq(sd * sd, m0 * m0 * sx::constant(o.Qx(c, c)), tag + " stdev(" + uname(IS, i) + ")^2 = m0^2 q_xx"); sx::check_ge0(sd, tag + " stdev >= 0"); }
+  // adjusted observations and residual cofactors (oracle: A Q A')
+  QMat AQAt = qla::mul(qla::mul(o.A, o.Qx), qla::trans(o.A));
+  size_t k0 = 0; std::vector<bool> correlated;
+  for (auto& c : spec.cl) { bool corr = c.has_cov && c.band > 0; for (size_t i = 0; i < c.obs.size(); i++) correlated.push_back(corr); }
+  for (int i = 1; i <= m; i++) {
+    Observation* ob = IS->ptr_obs(i); int k = -1; for (size_t q = 0; q < b.obs.size(); q++) if (b.obs[q] == ob) k = (int)q;
+    Real sL = IS->stdev_obs(i);
+    std::string what = correlated[k] ? " (correlated cluster)" : "";
+    sx::check_eq(sL * sL, m0 * m0 * sx::constant(AQAt(i - 1, i - 1)), tag + " stdev of adjusted observation " + std::to_string(i) + what + ": sL^2 = m0^2 (A Q A')_ii");
+    if (!correlated[k]) {
+      Real p = IS->weight_obs(i);
+      sx::check_eq(p, sx::constant(o.P(i - 1, i - 1)), tag + " weight of observation " + std::to_string(i));
+      sx::check_eq(IS->wcoef_res(i), sx::rat(1) / p - sx::constant(AQAt(i - 1, i - 1)), tag + " residual cofactor = 1/p - q_L, observation " + std::to_string(i));
+    }
+  }
+  // confidence coefficient: the same function application as the documented one
+  Real coef = IS->conf_int_coef(); Real prob = (sx::rat(1) - IS->conf_pr()) / sx::rat(2);
+  if (sigma_act == "apriori") sx::check_eq(coef, GNU_gama::Normal(prob), tag + " confidence coefficient = Normal((1-p)/2)");
+  else if (dof > 0) sx::check_eq(coef, GNU_gama::Student(prob, dof), tag + " confidence coefficient = Student((1-p)/2, dof)");
+  else sx::check_zero(coef, tag + " confidence coefficient 0 when dof = 0");
+  // error ellipses of points with x and y unknown
+  for (auto& p : spec.pts) {
+    int cx = o.col(p.id, 'X'), cy = o.col(p.id, 'Y'); if (cx < 0 || cy < 0) continue;
+    Real a, bb, alfa; IS->std_error_ellipse(PointID(p.id), a, bb, alfa);
+    Real cxx = sx::constant(o.Qx(cx, cx)), cyy = sx::constant(o.Qx(cy, cy)), cxy = sx::constant(o.Qx(cx, cy));
+    std::string t2 = tag + " ellipse of " + p.id;
+    sx::check_eq(a * a + bb * bb, m0 * m0 * (cxx + cyy), t2 + ": a^2 + b^2 = m0^2 trace");
+    sx::check_eq(a * a * bb * bb, m0 * m0 * m0 * m0 * (cxx * cyy - cxy * cxy), t2 + ": a^2 b^2 = m0^4 det");
+    sx::check_ge0(bb, t2 + ": b >= 0"); sx::check_ge0(a, t2 + ": a >= 0");
+    if (sx::is_const(m0)) sx::check_le(bb, a, t2 + ": a >= b");   // with a symbolic m0 the order follows from a^2-b^2 = m0^2*sqrt(.) >= 0, which z3 does not decide in 20 s: not queried
+    sx::check_ge0(alfa, t2 + ": bearing >= 0"); sx::check_lt(alfa, sx::constant(mpq_class(M_PI)), t2 + ": bearing < pi");
+    Real s2 = sin(alfa + alfa), c2 = cos(alfa + alfa);
+    if (sx::numeric(a) != sx::numeric(bb) || !sx::is_const(a)) {
+      sx::check_zero((cxx - cyy) * s2 - sx::rat(2) * cxy * c2, t2 + ": bearing is an eigen-direction");
+      sx::check_ge0((cxx - cyy) * c2 + sx::rat(2) * cxy * s2, t2 + ": bearing belongs to the major axis");
+    }
+  }
+  // changing only sigma-apr rescales v'Pv and nothing else
+  if (sigma_apr2 != 0) {
+    Spec s2 = spec; s2.sigma_apr = sigma_apr2; Built c; c.spec = s2;
+    if (!c.net.parse(gkf(s2))) { sx::fail(tag + " second sigma-apr rejected", ""); return; }
+    c.obs = c.net.all_obs(); c.val = b.val; c.active.assign(c.obs.size(), true); for (size_t q = 0; q < c.obs.size(); q++) c.obs[q]->set_value(c.val[q]);
+    c.net.prepare(ALGS[alg], false);
+    Res r2 = run_flow(c, true); sx::check_true(r2.adjusted, tag + " adjusted with the other sigma-apr", r2.why); if (!r2.adjusted) return;
+    Q ratio = (spec.sigma_apr / sigma_apr2); Real rr = sx::constant(ratio * ratio);
+    sx::check_eq(r.vpv, r2.vpv * rr, tag + " v'Pv scales with sigma-apr^2");
+    for (auto& kv : r.adj) sx::check_eq(kv.second, r2.adj.at(kv.first), tag + " adjusted " + kv.first + " independent of sigma-apr");
+    for (auto& kv : r.resid) sx::check_eq(kv.second, r2.resid.at(kv.first), tag + " residual independent of sigma-apr");
+    sx::check_true(r.dof == r2.dof, tag + " dof independent of sigma-apr", "");
+    if (sigma_act == "aposteriori") { sx::check_eq(r.m0, r2.m0 * sx::constant(ratio), tag + " aposteriori m0 scales with sigma-apr");   // m0 is relative to the a priori unit weight
+      for (auto& kv : r.stdev_obs) sx::check_eq(kv.second, r2.stdev_obs.at(kv.first), tag + " stdev of adjusted observation independent of sigma-apr"); }
+  }
+  sx::reached("net-c09");
+}
+
 // C20: ill-posed datum / structure: same diagnosis for every algorithm
 static void case_c20(const Spec& spec) {
   std::vector<Res> rs;
@@ -489,6 +568,18 @@ static void gen_cases(const sx::Options& opt, std::vector<sx::Case>& cases) {
   if (on("C14")) for (auto& s : fam) { if (s.name.find("fixed") == std::string::npos) continue; size_t nobs = 0; for (auto& c : s.cl) nobs += c.obs.size();
       for (int alg = 0; alg < 3; alg++) for (size_t t = 0; t < nobs; t += (th ? 1 : 3)) { auto sp = std::make_shared<Spec>(s); int tt = (int)t;
         add("net-c14/" + s.name + "/" + ALGS[alg] + "/obs" + std::to_string(t), "tol-abs threshold and deletion equivalence", [sp, alg, tt] { case_c14(*sp, alg, tt); }); } }
+  if (on("C09")) {
+    qla::Rng rng(909 + opt.seed);
+    std::vector<Spec> st = fam;
+    st.push_back(levelling("lev3-dof0", 3, {{1,2},{2,3}}, "faa", rng, 0));            // dof = 0
+    st.push_back(levelling("lev3-dof1", 3, {{1,2},{2,3},{3,1}}, "faa", rng, 0));      // dof = 1
+    st.push_back(levelling("lev4-dof2", 4, {{1,2},{2,3},{3,4},{4,1},{1,3}}, "faaa", rng, 1));
+    int k = 0;
+    for (auto& s : st) for (int alg = 0; alg < 3; alg++) for (int act = 0; act < 2; act++) {
+      if (!th && (k++ % 2)) continue;
+      auto sp = std::make_shared<Spec>(s); std::string sa = act ? "apriori" : "aposteriori"; Q conf = (alg == 1) ? Q(9, 10) : Q(95, 100); Q s2 = (alg == 2) ? Q(0) : Q(5, 2);
+      add("net-c09/" + s.name + "/" + ALGS[alg] + "/" + sa, "statistics", [sp, alg, sa, conf, s2] { case_c09(*sp, alg, sa, conf, s2); }); }
+  }
   if (on("C20")) {
     qla::Rng rng(2020 + opt.seed);
     std::vector<std::pair<int,int>> loop5{{1,2},{2,3},{3,4},{4,5},{5,1},{2,4},{1,3}};
